@@ -267,21 +267,24 @@ impl LogitsFilter for TopP {
             return logits;
         }
 
-        let (mut logits, indices) = logits.into_logits_indices();
+        let (logits, indices) = logits.into_logits_indices();
 
-        // Normalize logits to probabilities.
+        // Compute the probability of each token. These are only used to choose
+        // which tokens to keep. The retained tokens keep their input scores.
+        let mut probs = logits.clone();
         if self.normalize {
-            Softmax::new_mut(&mut logits).dispatch();
+            Softmax::new_mut(&mut probs).dispatch();
         }
 
-        // Combine into (logit, token_id) tuples and sort by probability
-        // descending.
-        let mut pairs: Vec<(f32, TokenId)> = logits.into_iter().zip(indices).collect();
-        pairs.sort_by(|a, b| {
-            let (a_prob, _a_id) = a;
-            let (b_prob, _b_id) = b;
-            a_prob.total_cmp(b_prob).reverse()
-        });
+        // Combine into (probability, logit, token_id) tuples and sort by
+        // probability descending.
+        let mut pairs: Vec<(f32, f32, TokenId)> = probs
+            .into_iter()
+            .zip(logits)
+            .zip(indices)
+            .map(|((prob, logit), id)| (prob, logit, id))
+            .collect();
+        pairs.sort_by(|a, b| a.0.total_cmp(&b.0).reverse());
 
         // Find k such that the top-K logits have a cumulative probability >= self.p.
         //
@@ -296,7 +299,10 @@ impl LogitsFilter for TopP {
         pairs.truncate(k);
 
         // Return the top-K logits.
-        let (logits, indices) = pairs.into_iter().unzip();
+        let (logits, indices) = pairs
+            .into_iter()
+            .map(|(_prob, logit, id)| (logit, id))
+            .unzip();
         Logits::sparse(logits, indices)
     }
 }
